@@ -91,6 +91,10 @@ impl Monitor for C09 {
 			// mostly zero-frame games (cheap); every 8th version gets frames, every 16th Ice Climbers
 			let h = ver.0 as usize * 31 + ver.1 as usize * 7 + ver.2 as usize;
 			let spec = gen::base_spec(ver, if h % 16 == 0 { vec![(0, true), (2, false)] } else { vec![(0, false), (1, false)] }, if h % 8 == 0 && (ver.0, ver.1) != (0, 0) { 2 } else { 0 });
+			let mut spec = spec;
+			// the build byte and the rest of the block are not part of the version
+			spec.build = if h % 3 == 0 { 0 } else { rng.byte() };
+			spec.rich_start = h % 5 == 0;
 			let built = gen::build(&spec, &mut rng);
 			let g1 = common::slp_read(&built.bytes, false, false);
 			let g2 = common::slp_read(&built.bytes, false, false);
